@@ -87,6 +87,8 @@ def plan(tier, seed):
     for i in range(nsh):
         shards.append({'name': 'rej_%d' % i, 'kind': 'rej', 'cells': cells[i::nsh], 'reps': reps,
                        'seed': seed * 1000 + 260 + i})
+    shards.append({'name': 'rej_O', 'kind': 'rej', 'cells': cells[3::7], 'reps': max(2, reps // 4),
+                   'seed': seed * 1000 + 269, 'optimize': True})
     acc = [(e, a, b) for e in ACCEPT_ENTRIES for a in SHAPES for b in SHAPES]
     nsh = 6
     for i in range(nsh):
